@@ -82,7 +82,8 @@ pub fn generate(seed: u64, tier: &str, sink: &mut Sink) {
         let (reads, rname) = if rng.chance(1, 12) {
             (Reads::Text(8192), "text_utf8()")
         } else if rng.chance(1, 5) {
-            match rng.below(4) {
+            match rng.below(5) {
+                4 => (Reads::Drain(crate::resp::DRAIN_WRITE_TO_SHORT), "write_to(short-writing sink)"),
                 0 => (Reads::Drain(crate::resp::DRAIN_WRITE_TO), "write_to()"),
                 1 => (Reads::Drain(crate::resp::DRAIN_SPLIT), "split()+read_to_end"),
                 2 => (Reads::Drain(crate::resp::DRAIN_ERR_FOR_STATUS), "error_for_status()+bytes()"),
